@@ -43,7 +43,8 @@ DRIVER = "Driver/C57.lean"
 REQUIRED_THEOREMS = ["acm_enumerates", "set_line_coding_accepted", "other_class_vendor_stalled", "vendor_reserved_stalled",
                      "unsupported_request_stalled", "rx_in_order_partial", "tx_in_order_partial",
                      "rx_in_order", "rx_delivered_prefix", "tx_in_order", "tx_kept_prefix", "tx_exactly_once",
-                     "halt_clear_is_clear_feature", "rx_host_in_order", "rx_host_exactly_once"]
+                     "halt_clear_is_clear_feature", "rx_host_in_order", "rx_host_exactly_once",
+                     "out_data_follows_out_token"]
 RULE = ("cases = (a) 'matrix' sessions: ONE request matrix per run, cut into 4 (quick) / 48 (thorough) sessions = the FULL "
         "cross request type (standard / class / vendor / reserved) x recipient (device / interface / endpoint / other / a "
         "reserved one) x direction x data stage (none / wLength 7 / another wLength) for every bRequest that ACMRequestHandlers implements (its "
